@@ -617,12 +617,8 @@ def custom_run(ctx, res, cw):
         mism.append((cw.paths[0] if cw.paths else "", {"family": "fs"}, Finding("mismatch", "the cabextract binary was not built")))
         return viol, mism
     replay = [p for p in cw.paths if any(l.startswith("fs ") for l in open(p))]
-    if replay:
-        scns = [(p, scn_parse(open(p).read().splitlines())) for p in replay]
-    elif any("replay" in cw.meta[p] for p in cw.paths):
-        scns = []
-    else:
-        scns = []
+    scns = [(p, scn_parse(open(p).read().splitlines())) for p in replay]      # witnesses of findings / --replay
+    if not any("replay" in cw.meta[p] for p in cw.paths):
         for s in fs_scenarios(ctx):
             p = cw.add(scn_lines(s), dict(family=s["family"], opts=s["opts"], dmode=s["dmode"], links=s["links"], note=s["note"]))
             scns.append((p, s))
